@@ -19,8 +19,8 @@
 //!                          power loss follows). out: `<stores|-> died|done <live> <boundary>`
 //!                          (`live boundary` = counter state after the restart)
 //!   `crash`                power loss + restart. out: `<live> <boundary>`
-//!   `openfail <rand>`      `initiate_group` whose store FAILS (returns an error; no power loss).
-//!                          Outside C12's quantifier: the driver switches its oracle off.
+//!   `openfail <rand>`      `initiate_group` whose store FAILS (returns an error; no power loss); if it
+//!                          stores nothing it is an ordinary `open`. The oracle stays on.
 //!                          out: `<stores|-> <live> <boundary> ok|err:<Code>`
 //! `rand` is the `next_u32()` draw of the crypto handed to `initiate_group` (first-use seed).
 use core::future::Future;
@@ -183,7 +183,7 @@ pub(super) fn run_w(out: &mut Out, case: &Case, words: &[&str]) {
             let mut kv = kvc.borrow_mut();
             kv.die_after_store = false;
             kv.die_before_store = false;
-            kv.fail_store = false;
+            kv.fail_after = None;
             kv.log.clear();
         }
         let matter = Box::new(Matter::new(&TEST_DEV_DET, TEST_DEV_COMM, &TEST_DEV_ATT, 0));
@@ -211,12 +211,12 @@ pub(super) fn run_w(out: &mut Out, case: &Case, words: &[&str]) {
             let res: String = match w.first().copied().unwrap_or("") {
                 "open" | "openfail" => {
                     let fail = w[0] == "openfail";
-                    kvc.borrow_mut().fail_store = fail;
+                    kvc.borrow_mut().fail_after = if fail { Some(0) } else { None };
                     let crypto = default_crypto(FixedRng(rand_at(1)), DAC_PRIVKEY);
                     let r = catch_unwind(AssertUnwindSafe(|| {
                         Exchange::initiate_group(&matter, &crypto, matter.kv(KvRef(&kvc)), fab_idx, GROUP_ID)
                     }));
-                    kvc.borrow_mut().fail_store = false;
+                    kvc.borrow_mut().fail_after = None;
                     let stores = drain_group_stores(&kvc);
                     if stores != "-" {
                         n_store += 1;
